@@ -38,6 +38,8 @@ pub enum C {
     Dom(usize, Vec<isize>),       // sparse or interval (ascending listing; interval if contiguous & flag)
     DomR(usize, isize, isize),
     Plus(A, A, A), Minus(A, A, A), Times(A, A, A), Lte(A, A), Lt(A, A), Ne(A, A), Distinct(Vec<A>), Eq(A, A),
+    /// `[a1, a2] == [b1, b2]`: one unification that binds several variables at once
+    EqL(Vec<A>, Vec<A>),
 }
 impl C {
     fn show(&self) -> String {
@@ -52,6 +54,7 @@ impl C {
             C::Ne(a, b) => format!("ne({},{})", a.show(), b.show()),
             C::Distinct(v) => format!("distinct({})", v.iter().map(|a| a.show()).collect::<Vec<_>>().join(",")),
             C::Eq(a, b) => format!("eq({},{})", a.show(), b.show()),
+            C::EqL(a, b) => format!("eql({}|{})", a.iter().map(|x| x.show()).collect::<Vec<_>>().join(","), b.iter().map(|x| x.show()).collect::<Vec<_>>().join(",")),
         }
     }
     fn holds(&self, asg: &[isize]) -> bool {
@@ -66,10 +69,11 @@ impl C {
             C::Ne(a, b) => a.val(asg) != b.val(asg),
             C::Distinct(v) => { let xs: Vec<isize> = v.iter().map(|a| a.val(asg)).collect(); (0..xs.len()).all(|i| (i + 1..xs.len()).all(|j| xs[i] != xs[j])) }
             C::Eq(a, b) => a.val(asg) == b.val(asg),
+            C::EqL(a, b) => a.len() == b.len() && a.iter().zip(b.iter()).all(|(x, y)| x.val(asg) == y.val(asg)),
         }
     }
     fn class(&self) -> &'static str {
-        let ops: Vec<A> = match self { C::Plus(a, b, c) | C::Minus(a, b, c) | C::Times(a, b, c) => vec![*a, *b, *c], C::Lte(a, b) | C::Lt(a, b) | C::Ne(a, b) | C::Eq(a, b) => vec![*a, *b], C::Distinct(v) => v.clone(), _ => vec![] };
+        let ops: Vec<A> = match self { C::Plus(a, b, c) | C::Minus(a, b, c) | C::Times(a, b, c) => vec![*a, *b, *c], C::Lte(a, b) | C::Lt(a, b) | C::Ne(a, b) | C::Eq(a, b) => vec![*a, *b], C::Distinct(v) => v.clone(), C::EqL(a, b) => a.iter().chain(b.iter()).cloned().collect(), _ => vec![] };
         let vs: Vec<usize> = ops.iter().filter_map(|a| if let A::V(v) = a { Some(*v) } else { None }).collect();
         let mut d = vs.clone(); d.sort(); d.dedup();
         if d.len() < vs.len() { "alias" } else { "plain" }
@@ -102,6 +106,7 @@ fn build(prog: &[C], vars: &[T], q: &T, variant: u8) -> Goal<U, E> {
             C::Ne(a, b) => diseqfd::<U, E, Goal<U, E>>(term(a, vars), term(b, vars)).cast_into(),
             C::Distinct(v) => distinctfd::<U, E, Goal<U, E>>(LTerm::from_vec(v.iter().map(|a| term(a, vars)).collect())).cast_into(),
             C::Eq(a, b) => Eq::new::<Goal<U, E>>(term(a, vars), term(b, vars)).cast_into(),
+            C::EqL(a, b) => Eq::new::<Goal<U, E>>(LTerm::from_vec(a.iter().map(|x| term(x, vars)).collect()), LTerm::from_vec(b.iter().map(|x| term(x, vars)).collect())).cast_into(),
         };
         goals.push(g);
     }
@@ -219,7 +224,7 @@ fn gen(r: &mut Rng, signed: bool) -> Vec<C> {
                 if r.below(2) == 0 { for _ in 0..1 + r.below(2) { let k = A::K(lo + r.below((hi - lo + 1) as usize) as isize); let pos = r.below(items.len() + 1); items.insert(pos, k); } }
                 C::Distinct(items)
             }
-            _ => C::Eq(A::V(r.below(NV)), op(r)),
+            _ => if r.below(3) == 0 { C::EqL(vec![A::V(r.below(NV)), A::V(r.below(NV))], vec![op(r), op(r)]) } else { C::Eq(A::V(r.below(NV)), op(r)) },
         };
         prog.push(c);
     }
@@ -253,6 +258,29 @@ pub fn search(tier: &str, seed: u64, only: Option<&str>) {
             let mut p = vec![C::DomR(0, 0, 3), C::DomR(b, 0, 3), C::Eq(A::V(a), A::V(b)), k.clone(), C::DomR(3 - a - b, 0, 3)]; if a + b == 3 { p.pop(); } fixed.push(p);
         }
     }
+    // one unification binding two or three FD variables at once (in and out of their domains)
+    let mut multi: Vec<Vec<C>> = vec![];
+    for (l, rr) in [(vec![A::V(0), A::V(1)], vec![A::K(7), A::K(1)]), (vec![A::V(0), A::V(1)], vec![A::K(1), A::K(7)]), (vec![A::V(0), A::V(1), A::V(2)], vec![A::K(1), A::K(2), A::K(9)]),
+                    (vec![A::V(0), A::V(1)], vec![A::K(1), A::K(2)]), (vec![A::V(0), A::V(1)], vec![A::V(2), A::K(8)]), (vec![A::V(1), A::V(2)], vec![A::V(0), A::V(0)])] {
+        let mut p = dom3(0, 3); p.push(C::EqL(l.clone(), rr.clone())); multi.push(p);
+        let mut p = vec![C::EqL(l.clone(), rr.clone())]; p.extend(dom3(0, 3)); multi.push(p);
+    }
+    // C09: the same programs run up to 12 times each (which binding of one unification is processed first is hash order)
+    if only.is_none() {
+        for prog in &multi {
+            let first = run_real(prog, 0);
+            rep.case("determinism", format!("probe {}", show(prog)));
+            for _ in 0..12 {
+                let again = run_real(prog, 0);
+                if again != first {
+                    let (mut a, mut b) = (first.clone(), again.clone()); a.sort(); b.sort();
+                    rep.fail("determinism", show(prog), format!("{:?}", first), format!("{:?}", again), if a == b { "order" } else { "answers" });
+                    break;
+                }
+            }
+        }
+    }
+    fixed.extend(multi);
     // C09 probes: programs on which the answer ORDER is known to depend on hash iteration order (known finding); each
     // is run up to 40 times so that the dependence shows reliably
     if only.is_none() {
@@ -283,6 +311,7 @@ fn parse_prog(body: &str) -> Vec<C> {
         if let Some(p) = c.find("in{") { let v: usize = c[1..p].parse().unwrap(); let d: Vec<isize> = c[p + 3..c.len() - 1].split(' ').filter(|s| !s.is_empty()).map(|s| s.parse().unwrap()).collect(); prog.push(C::Dom(v, d)); continue; }
         if let Some(p) = c.find("in") { let v: usize = c[1..p].parse().unwrap(); let ab: Vec<&str> = c[p + 2..].split("..").collect(); prog.push(C::DomR(v, ab[0].parse().unwrap(), ab[1].parse().unwrap())); continue; }
         let p = c.find('(').unwrap();
+        if &c[..p] == "eql" { let halves: Vec<&str> = c[p + 1..c.len() - 1].split('|').collect(); prog.push(C::EqL(halves[0].split(',').map(op).collect(), halves[1].split(',').map(op).collect())); continue; }
         let args: Vec<A> = c[p + 1..c.len() - 1].split(',').map(op).collect();
         prog.push(match &c[..p] { "plus" => C::Plus(args[0], args[1], args[2]), "minus" => C::Minus(args[0], args[1], args[2]), "times" => C::Times(args[0], args[1], args[2]),
             "lte" => C::Lte(args[0], args[1]), "lt" => C::Lt(args[0], args[1]), "ne" => C::Ne(args[0], args[1]), "distinct" => C::Distinct(args), _ => C::Eq(args[0], args[1]) });
